@@ -291,7 +291,72 @@ FamDup == {Sc("dup", v, 0, 0, TRUE, FALSE) :
               v \in { VObj(<<Mem(Ka, One), Mem(Ka, Two)>>),
                       VObj(<<Mem(Kb, One), Mem(Ka, VObj(<<Mem(<<34>>, One), Mem(<<34>>, VNum(<<49, 46, 53>>))>>)), Mem(Kb, VNull)>>) }}
 
+\* --- family order: the ORDER of object keys, over every class of characters an ordering can tell apart ------
+\* (CanonJSON.tla section 8b: KeyOrderIsByteOrder, UnitOrderDiffersExactly, CanonKeysInByteOrder).  The canonical
+\* order is the order of code points = of the bytes of the UTF-8; an implementation can go wrong by comparing
+\* something else: UTF-16 code units (differs across the surrogate gap: E000..FFFF against the supplementary
+\* planes), the raw escaped text, bytes as signed numbers (differs between ASCII and everything else), string
+\* lengths ...  The alphabet has the boundary characters of every class and some from the middle:
+\*   ascii a DEL | two-byte U+0080 U+07FF | below the surrogates U+0800 U+D7FF |
+\*   above the surrogates U+E000 (private use) U+F900 (CJK compatibility) U+FF01 (fullwidth) U+FFFD U+FFFF |
+\*   supplementary U+10000 U+10437 U+1F600 U+20BB7 (CJK extension B) U+10FFFF       (thorough: some more)
+OrdAlphaSeq == IF Quick THEN <<97, 127, 128, 2047, 2048, 55295, 57344, 63744, 65281, 65533, 65535,
+                               65536, 66615, 128512, 134071, 1114111>>
+               ELSE <<97, 127, 128, 233, 2047, 2048, 8232, 55295, 57344, 63744, 64257, 65281, 65533, 65534, 65535,
+                      65536, 66559, 66560, 66615, 128512, 134071, 1113088, 1114111>>
+OrdAlpha == {OrdAlphaSeq[i] : i \in DOMAIN OrdAlphaSeq}
+ASSUME \A i \in 1..(Len(OrdAlphaSeq) - 1) : OrdAlphaSeq[i] < OrdAlphaSeq[i + 1]
+Single(S) == {<<c>> : c \in S}
+\* order A: every pair of one-character keys, both member orders, the characters raw and escaped (a supplementary
+\* character also as an escaped surrogate pair, lower / upper / mixed case): all spellings of both keys for the pairs
+\* across the surrogate gap (all pairs in the thorough tier; the quick tier writes the other pairs raw: escaped keys of
+\* the lower classes are the keys family's)
+FamOrderA == {Sc("order", VObj(<<Mem(p[1], One), Mem(p[2], Two)>>), 0,
+                 IF AcrossSurrogateGap(p[1], p[2]) \/ ~Quick THEN All ELSE 0, TRUE, FALSE) : p \in KeyPairs(Single(OrdAlpha))}
+\* every ordered pair of classes is met by some pair of keys, and every class by two keys of its own
+ASSUME \A i, j \in DOMAIN CpClasses : i <= j =>
+           \E p \in KeyPairs(Single(OrdAlpha)) : DiffClasses(p[1], p[2]) = <<CpClasses[i], CpClasses[j]>>
+\* order B: the deciding characters after a common prefix (ASCII "m.", a supplementary character - one code point, two
+\* UTF-16 code units, four bytes -, a fullwidth form) and before suffixes that would decide otherwise if they took part
+OrdRep == {97, 233, 8232, 65281, 65533, 66615, 128512}
+OrdPrefixes == { <<109, 46>>, <<128512>>, <<65281>> }
+OrdSuffixes == { <<<<>>, <<>>>>, <<<<97>>, <<>>>>, <<<<>>, <<97>>>>, <<<<128512>>, <<65281>>>> }
+FamOrderB == {Sc("order", VObj(<<Mem(pre \o <<p[1]>> \o suf[1], One), Mem(pre \o <<p[2]>> \o suf[2], Two)>>), 0, 0, TRUE, FALSE) :
+                 pre \in OrdPrefixes, suf \in OrdSuffixes, p \in {q \in OrdRep \X OrdRep : q[1] < q[2]}}
+\* ... and a key against its own extension (the shorter key first, whatever follows)
+FamOrderB2 == {Sc("order", VObj(<<Mem(<<c>>, One), Mem(<<c, d>>, Two)>>), 0, 0, TRUE, FALSE) : c, d \in OrdRep}
+ASSUME \A c, d \in OrdRep : DiffClasses(<<c>>, <<c, d>>) = <<"end", CpClass(d)>>
+\* order C: the object somewhere else than at the top: in an array, as a member's value, three members inside an array
+\* inside an object, and with the order-sensitive keys at two levels at once
+OrdGapPairs == { <<65281, 128512>>, <<65533, 66615>>, <<57344, 134071>>, <<65535, 65536>>, <<233, 128512>>, <<8232, 65281>> }
+OrdPlace(pl, a, b) ==
+    CASE pl = "elem" -> VArr(<<VObj(<<Mem(<<a>>, One), Mem(<<b>>, Two)>>)>>)
+      [] pl = "mval" -> VObj(<<Mem(Ka, VObj(<<Mem(<<a>>, One), Mem(<<b>>, Two)>>))>>)
+      [] pl = "deep" -> VObj(<<Mem(<<99>>, VArr(<<VObj(<<Mem(Ka, VNum(Zero)), Mem(<<a>>, VStr(<<121>>)), Mem(<<b>>, VStr(<<120>>))>>)>>))>>)
+      [] pl = "both" -> VObj(<<Mem(<<a>>, VObj(<<Mem(<<a>>, One), Mem(<<b>>, Two)>>)),
+                               Mem(<<b>>, VArr(<<VObj(<<Mem(<<a>>, VNull), Mem(<<b>>, VTrue)>>)>>))>>)
+FamOrderC == {Sc("order", OrdPlace(pl, p[1], p[2]), 0, 0, TRUE, FALSE) : pl \in {"elem", "mval", "deep", "both"}, p \in OrdGapPairs}
+\* order D: three keys of three classes, every member order
+OrdTripleAlpha == IF Quick THEN {97, 233, 8232, 57344, 65281, 65535, 65536, 128512} ELSE OrdAlpha
+FamOrderD == {Sc("order", VObj(<<Mem(p[1], One), Mem(p[2], Two), Mem(p[3], Three)>>), 0, 0, TRUE, FALSE) :
+                 p \in KeyTriples(Single(OrdTripleAlpha))}
+\* order E: the whole alphabet in one object (more members than a sort handles by insertion), written descending and
+\* scrambled; and after 113 ASCII keys, so that the object has 129 members (one more than the library sorts in place)
+OrdN == Len(OrdAlphaSeq)
+OrdStride == IF Quick THEN 7 ELSE 5
+ASSUME \A i, j \in 1..OrdN : i # j => (i * OrdStride) % OrdN # (j * OrdStride) % OrdN       \* the scramble is a permutation
+OrdMany(kind) ==
+    LET at(i) == CASE kind = "descending" -> OrdN + 1 - i
+                   [] kind = "scrambled"  -> ((i * OrdStride) % OrdN) + 1
+        tail == [i \in 1..OrdN |-> Mem(<<OrdAlphaSeq[at(i)]>>, VNum(<<48 + (i % 10)>>))]
+    IN  IF kind = "wide" THEN VObj((WideObj(129 - OrdN).c \o [i \in 1..OrdN |-> Mem(<<OrdAlphaSeq[OrdN + 1 - i], 65>>, VNull)]) \o <<>>)
+        ELSE VObj(tail \o <<>>)
+FamOrderE == {Sc("order", OrdMany(kind), 0, 0, FALSE, FALSE) : kind \in {"descending", "scrambled", "wide"}}
+ASSUME \A sc \in FamOrderE : ~HasDupKeys(sc.v)
+
 GenInit == \/ InitWith(FamStrA) \/ InitWith(FamStrB)
+           \/ InitWith(FamOrderA) \/ InitWith(FamOrderB) \/ InitWith(FamOrderB2) \/ InitWith(FamOrderC)
+           \/ InitWith(FamOrderD) \/ InitWith(FamOrderE)
            \/ InitWith(FamNumA) \/ InitWith(FamNumB) \/ InitWith(FamNumC) \/ InitWith(FamNumD)
            \/ InitWith(FamEdgeA) \/ InitWith(FamEdgeB) \/ InitWith(FamLook) \/ InitWith(FamNestKeys)
            \/ InitWith(FamWide) \/ InitWith(FamDup)
